@@ -11,7 +11,10 @@ PROP = dict(
     rule="agent downloads (blobs of 0,1,3,5 pieces; pieces in random order, some first delivered corrupted, some repeated) run once "
          "in a child process under strace; EVERY prefix of the recorded file-system operations is materialized and the real restart path "
          "(NewCADownloadStore + TorrentArchive.CreateTorrent + NewTorrent/restorePieces) is run on it, probed (Complete, Bitfield, "
-         "cache reader bytes, data-file regions) and the download resumed with correct pieces; non-trivial = crash point strictly inside",
+         "cache reader bytes, data-file regions) and the download resumed with correct pieces, then the committed blob is evicted "
+         "(DeleteTorrent) and requested again in the same process; second generation: for crash points that leave the blob cached AND "
+         "leftovers of its download directory, a second download (evict + CreateTorrent + pieces + commit) is recorded on top of "
+         "those leftovers and every prefix of IT is materialized and probed the same way; non-trivial = crash point strictly inside",
     assumptions=["process-crash model: completed system calls persist, a write syscall is atomic",
                  "the tracker still serves the blob's metainfo after the restart"],
     level_text="TLC model-checks the FS-level AgentCrash model (every file-system step of create/write/commit, crash anywhere, the code's "
